@@ -104,12 +104,18 @@ SumSide(parts, i, s, env) ==
 NetCoef(doc, r, s, env) ==
     RSub(SumSide(doc.rxns[r].products, 1, s, env), SumSide(doc.rxns[r].reactants, 1, s, env))
 
+\* Addition of the per-reaction terms.  RAdd is strict, left operand first, so WHICH non-number a sum with two bad
+\* terms yields (Undef: the document is undefined there, Skip: the specification declines) would depend on the order
+\* in which the SET of reactions is traversed - i.e. on how the reactions are called.  CAdd is commutative on the
+\* non-numbers: an undefined term makes the sum undefined whatever else is declined.
+CAdd(a, b) == IF a = Undef \/ b = Undef THEN Undef ELSE IF Bad(a) THEN a ELSE IF Bad(b) THEN b ELSE RAdd(a, b)
+
 RECURSIVE SumRxns(_, _, _, _, _)
 SumRxns(doc, rs, s, env, divide) ==
     IF rs = {} THEN Zero
     ELSE LET r == CHOOSE x \in rs : TRUE
              term == RMul(NetCoef(doc, r, s, env), IF r \in DOMAIN env THEN env[r] ELSE Undef)
-         IN RAdd(IF divide THEN RDiv(term, doc.comps[Sp(doc, s).comp].size) ELSE term,
+         IN CAdd(IF divide THEN RDiv(term, doc.comps[Sp(doc, s).comp].size) ELSE term,
                  SumRxns(doc, rs \ {r}, s, env, divide))
 
 Touches(doc, r, s) ==
@@ -458,12 +464,24 @@ OK == Done /\ Resolves(doc) /\ Injective(doc)
 
 AlwaysResolves == Done => Resolves(doc)
 
-\* the meaning of a document does not depend on how its components are called
+\* The meaning of a document does not depend on how its components are called.  Stated precisely: a value is
+\* undefined under one naming iff it is under the other, and wherever both namings give a number it is the same
+\* number.  (A sum is accumulated in the traversal order of a set of ids; the magnitude guard of Rat may therefore
+\* decline (Skip) under one order and not under another - that is the only freedom left.  The first version of this
+\* theorem demanded identical non-numbers and was refuted by TLC on a document with one undefined rate (k / time^c
+\* at t = 0) and one declined rate (0 ^ (1/2) in an initial assignment): the sum was Undef or Skip depending on
+\* whether the reaction was called r1 or `pass`.)
+SameValue(a, b) == /\ (a = Undef) <=> (b = Undef)
+                   /\ (RatV(a) /\ RatV(b)) => a = b
+SameTab(f, g) == DOMAIN f = DOMAIN g /\ \A n \in DOMAIN f : SameValue(f[n], g[n])
 IdsIrrelevant ==
     OK => \A j \in DOMAIN Points :
              LET p == Points[j] IN
-             /\ Rhs(RenDoc(doc), RenTab(p.y), p.t) = RenTab(Rhs(doc, p.y, p.t))
+             /\ SameTab(Rhs(RenDoc(doc), RenTab(p.y), p.t), RenTab(Rhs(doc, p.y, p.t)))
              /\ InitialValues(RenDoc(doc)) = RenTab(InitialValues(doc))
+             /\ LET e1 == EnvAt(RenDoc(doc), RenTab(p.y), p.t)
+                    e2 == RenTab(EnvAt(doc, p.y, p.t))
+                IN e1 = e2          \* single values (no sums over sets) are identical, non-numbers included
 
 \* wherever the rational evaluator decides, the closed term evaluates to the same number
 ClosedAgrees ==
